@@ -147,4 +147,22 @@ Next == \/ Tag
 Spec == Init /\ [][Next]_vars
 
 ClausesHold == failed = {}
+
+\* ---- scenarios for replay on the real classes (spec -> code): every mesh x three tag sets x every cell subset for
+\* restrict / remove_elements, and every other operation of the model once per tag set; facets as vertex tuples
+ExportOne(i, SF, op, el) ==
+  LET m == MeshSeq[i] cc == ConnOfMesh(m) fs == SortedSeq(SF[2]) IN
+  [ kind |-> m.kind, p |-> m.p, t |-> m.t, sub |-> SortedSeq(SF[1]),
+    fv |-> [j \in DOMAIN fs |-> cc.facets[fs[j]]], op |-> op, elements |-> el ]
+ExportSet ==
+  UNION {UNION {
+      {ExportOne(i, SF, "restrict", SortedSeq(E)) : E \in Subsets(Len(MeshSeq[i].t))}
+      \cup {ExportOne(i, SF, "remove_elements", SortedSeq(E)) : E \in Subsets(Len(MeshSeq[i].t)) \ {1..Len(MeshSeq[i].t)}}
+      \cup {ExportOne(i, SF, op, <<>>) : op \in {"add", "remove_unused_nodes", "remove_duplicate_nodes"}
+                                              \cup (IF MeshSeq[i].kind = "quad" THEN {"to_meshtri", "to_meshtri_x"} ELSE {})
+                                              \cup (IF MeshSeq[i].kind \in {"hex", "wedge"} THEN {"to_meshtet"} ELSE {})}
+      : SF \in TagPairs(MeshSeq[i], Len(ConnOfMesh(MeshSeq[i]).facets), TRUE)}
+    : i \in 1..NM}
+ASSUME \/ "OUT_FILE" \notin DOMAIN IOEnv \/ IOEnv.OUT_FILE = ""
+       \/ JsonSerialize(IOEnv.OUT_FILE, SetToSeq(ExportSet))
 ==============================================================================
